@@ -35,4 +35,14 @@ TEXT = {
         level_text="Exploration with exhaustively enumerated sub-spaces: random/hostile byte strings, all strings up to length 6/7 over a 9-symbol alphabet, and corpus split points are iterated by the real record iterator; the monitor checks termination, item count <= byte count, absence of line terminators in every yielded field, and records(A+nl+B) == records(A)++records(B) for nl in {LF, CRLF, CR}; mapper construction and cache writing run on the same bytes under the panic trap.",
         level_note="Trusted: the harness's item normalisation (error line without terminators). No grammar model is needed for this property.",
     ),
+    "C07": dict(
+        technique="runtime monitor: line-by-line reference model on structured traces with generator-known line kinds + identity monitor on arbitrary Unicode text",
+        level_text="Exploration: for each generated mapping, structured text traces (cause chains, tab/space indentation, '... n more', Native Method / Unknown Source, messages with ': ' and frame-like text, blank and arbitrary-Unicode opaque lines, CRLF, missing final newline) are remapped through mapper and cache and compared with the expected concatenation computed from model M; arbitrary Unicode text is remapped with mappings that know none of its classes and must come back unchanged up to terminator normalisation.",
+        level_note="Trusted: model M and the trace generator's line kinds (lines are only called opaque when no reading of the statement could make them a frame or cause).",
+    ),
+    "C08": dict(
+        technique="runtime monitor: reference-model oracle for typed traces + differential typed-vs-text oracle on canonical traces",
+        level_text="Exploration: typed traces with platform (never mapped) and mapped exception classes, resolved and unresolved frames and cause chains to depth 4 are remapped through mapper and cache; the monitor checks depth, that no throwable is dropped or invented, that each frame list is the model's expansion, and for canonical traces that printing the typed result equals the text API's output for the printed input.",
+        level_note="Trusted: model M; the library's own Display is used on both sides of the typed-vs-text comparison.",
+    ),
 }
